@@ -50,6 +50,18 @@ CHECKS = {
     "C19": ("model_checking", "Calendar.tla exhaustive (TLC) + replay of the real static methods + output-table trace of real designs",
             "Time labels are proved equal to the reference calendar for all 8760 hours and hours_to_month exact / monotone / continuous on a quarter-hour grid (3 years quick, 30 years thorough); the real functions are replayed on the same domains; real design outputs are compared with inputs, selected field and simulated curve.",
             "table clauses are judged on a few real designs (2 quick, 9 thorough)", "5/C19"),
+    "C09": ("model_checking", "Superposition.tla small-domain theorems (TLC) + replay of _simulate_detailed + spec-bound reference on real GHE objects",
+            "The documented formula is an operator over integers; TLC checks zero-load, linearity, additivity and sign on every load/time sequence within the bounds and prints exact values; the real _simulate_detailed is replayed on every case, and real simulate() runs (both time-step methods) are judged step by step by a transliteration that is itself checked against the same TLC output.",
+            "real-valued runs are sampled (4 quick / 15 thorough objects); tolerance 1e-9 relative", "5/C09"),
+    "C11": ("model_checking", "GJoin.tla exhaustive axis pairs (TLC) + replay of combine_sts_lts + real GFunction / GHE objects",
+            "The join is exhaustively checked over all pairs of integer axes within the bounds and replayed into the real static method; the stored-height identity, the radius correction and the interpolation cache are exercised on real GFunction objects and both join branches on real GHE objects.",
+            "NOT decided here: the analytic finite-line-source anchor (1e-4 / 1e-6) and the 20 % MIFT band of the property - they are numerical statements about pygfunction with no discrete structure (DESIGN.md section 10); exact float coincidence of a short-time point with -8.5 is the listed finding F17", "5/C11"),
+    "C14": ("model_checking", "RowWiseSweep.tla sweep + liveness (TLC) + replay with count oracle + closed-form lattice + watchdog runs on random convex lots",
+            "First-strict-maximum selection and termination of the sweep are checked exhaustively on the model and replayed into both optimisers; the closed-form lattice is compared on every integer lot in range; geometry clauses (inside, no-go, spacing, translation) are measured on random convex lots under a wall-clock watchdog.",
+            "geometry clauses are sampled (exploration); translation is judged only when per-rotation counts agree (borderline row ends are fp-dependent); exact-divisible lot sizes accept either rounding", "5/C14"),
+    "C15": ("other", "EquivPipe.tla (thin model, TLC) + batch trace validation of recorded to_single() conversions (EquivTrace.tla)",
+            "Trace invariants over a thin model: each recorded conversion is a 5-event trace with measured deviations; TLC validates all traces in one run and returns a verdict per trace. Volumes and the bracketed pipe-conductivity solve are judged; the grout solve never brackets on this tree (listed finding F11).",
+            "random geometries; R_b* evaluated by pygfunction for both exchangers; the convective+pipe target is the tool's own definition", "5/C15"),
 }
 
 NOT_APPLICABLE = [
